@@ -149,7 +149,8 @@ func (i Info) AppendHash(dst []byte, h hash.Hash) []byte {
 			io.WriteString(h, f.Var)
 			/* #nosec */
 			io.WriteString(h, "<")
-			vals := f.Raw
+			vals := make([]string, len(f.Raw))
+			copy(vals, f.Raw)
 			sort.Strings(vals)
 			for _, val := range vals {
 				/* #nosec */
